@@ -282,6 +282,30 @@ def rule_r5_body(body, counts):
     return body
 
 
+def rule_r5t_body(body, counts):
+    """R5 (try_for_each): statement `E.iter().try_for_each(|x| { B })?;` -> `for x in E.iter() { ({ B })?; }`
+    (definition of Iterator::try_for_each on Result: stop at the first Err and return it)."""
+    pat = re.compile(r'(?P<ind>^[ \t]*)(?P<e>[A-Za-z_][\w\.]*?)\.(?P<it>iter|keys)\(\)\.try_for_each\(\|(?P<x>\w+)\|\s*\{', re.M)
+    while True:
+        m = pat.search(body)
+        if not m:
+            break
+        open_idx = m.end() - 1
+        close_idx = _match_brace(body, open_idx)
+        tail = body[close_idx + 1:]
+        mt = re.match(r'\s*\)\s*\?\s*;', tail)
+        if not mt:
+            raise ExtractError('R5: try_for_each closure not in `...)?;` statement position')
+        inner = body[open_idx + 1:close_idx]
+        if re.search(r'\b(return|break|continue)\b', re.sub(r'//.*', '', inner)):
+            raise ExtractError('R5: closure body contains return/break/continue')
+        ind = m.group('ind')
+        body = (body[:m.start()] + ind + 'for %s in %s.%s() {\n' % (m.group('x'), m.group('e'), m.group('it'))
+                + ind + '    ({' + inner + '})?; // [R5]\n' + ind + '}' + tail[mt.end():])
+        counts['R5'] = counts.get('R5', 0) + 1
+    return body
+
+
 def _match_brace(text, open_idx):
     toks = rustlex.lex(text[open_idx:])
     d = 0
@@ -417,6 +441,7 @@ def rule_r15_body(body, counts):
 
 
 RULES_BODY = {
+    'R5t': rule_r5t_body,
     'R14': rule_r14_body,
     'R15': rule_r15_body,
     'R4': rule_r4_body,
@@ -686,16 +711,40 @@ def emit_fn(d, unit, report, canaries):
         src, it = locate(rel, 'fn', qual)
         whole = src[it.body_start + 1:it.body_end]
         lines = whole.split('\n')
-        frx = d.opt('from'); trx = d.opt('to')
-        a = find_line(lines, frx.lstrip('~'), 1, fname + ' block-from')
-        after = lines[a:]
-        b = find_line(after, trx.lstrip('~'), 1, fname + ' block-to') + a
-        body = '\n'.join(lines[a:b + 1])
+        if d.opt('loopbody'):
+            # the block is the body of the loop whose header matches
+            a = find_line(lines, d.opt('loopbody').lstrip('~'), 1, fname + ' block-loopbody')
+            rest = '\n'.join(lines[a:])
+            pos = _loop_open_brace(rest)
+            if pos is None:
+                raise ExtractError('lost anchor: block %s: not a loop header' % fname)
+            close = _match_brace(rest, pos)
+            body = rest[pos + 1:close]
+        else:
+            frx = d.opt('from'); trx = d.opt('to')
+            a = find_line(lines, frx.lstrip('~'), 1, fname + ' block-from')
+            after = lines[a:]
+            b = find_line(after, trx.lstrip('~'), 1, fname + ' block-to') + a
+            body = '\n'.join(lines[a:b + 1])
         heads = [t for (n, _, t) in d.sections if n == 'head']
         if not heads:
             raise ExtractError('block %s lacks //@head' % fname)
         sig = '\n'.join(heads[0])
         orig_text = body
+        # prologue: lines that must occur verbatim in the enclosing real function (they set up the block's environment)
+        pro = []
+        stripped = set(l.strip() for l in lines)
+        for (n, _, t) in d.sections:
+            if n == 'prologue':
+                for l in t:
+                    if l.strip() and l.strip() not in stripped:
+                        raise ExtractError('lost anchor: block %s prologue line not in %s: %s' % (fname, qual, l.strip()))
+                pro += t
+        epi = []
+        for (n, _, t) in d.sections:
+            if n == 'epilogue':
+                epi += t
+        body = '\n'.join(pro) + '\n' + body + '\n' + '\n'.join(epi)
     home = d.opt('unit')
     props = (d.opt('props', '') or '').split(',')
     rules = list(filter(None, (d.opt('rules', '') or '').split(',')))
@@ -706,11 +755,11 @@ def emit_fn(d, unit, report, canaries):
     sig = rule_r11_sig(sig, counts)
     if 'R2' in rules:
         sig = rule_r2_sig(sig, counts)
-    if 'R1' in rules:
+    if 'R1' in rules and d.kind == 'fn':
         sig = fn_after_self(sig, 'state: &mut VolatileState')
-    if 'R6' in rules:
+    if 'R6' in rules and d.kind == 'fn':
         sig = add_params(sig, 'Tracked(outbox): Tracked<&mut Outbox>')
-    if 'R6q' in rules:
+    if 'R6q' in rules and d.kind == 'fn':
         sig = add_params(sig, 'Tracked(sig): Tracked<&mut Signals>')
     for name, argstr, text in d.sections:
         if name == 'sigadd':
